@@ -132,3 +132,39 @@ example :
                                .thread 0, .thread 0, .thread 0, .thread 1, .thread 1, .thread 1, .thread 1]
     (crun st 2 sched).g.log = [.ranMod 1, .returned, .returned] := by decide
 
+
+/-! ### Scans during which modules appear (a glue function importing its plugin; the slip of seeded change C17-m7) -/
+
+/-- **C17_appearing_in_time**: from any state reached by insertions and extractions (cache invariant `TInv`), let any
+modules appear *during* a scan — after its snapshot was taken.  Then, when the **next** extraction returns, every module
+present, the newcomers included, has had its glue dealt with: the cache holds the size of the visited snapshot, never the
+live size, so the next call cannot take the fast path past a newcomer. -/
+theorem C17_appearing_in_time (st : Static) (g : GState) (appear : List Mod) (h : SInv st g) (ht : TInv st g) :
+    ∀ m ∈ (addGlue st (addGlueA st g appear)).present, Done st (addGlue st (addGlueA st g appear)) m :=
+  (addGlue_all_done st _ (addGlueA_inv st g appear h) (addGlueA_tinv st g appear h ht)).2
+
+/-- …and the newcomers are indeed among the modules present then. -/
+theorem C17_appearing_present (st : Static) (g : GState) (appear : List Mod) (m : Mod) (hm : m ∈ appear) :
+    m ∈ (addGlueA st g appear).present := by
+  unfold addGlueA
+  split
+  · exact insertAll_mem _ _ m hm
+  · exact insertAll_mem _ _ m hm
+
+/-- The invariants are kept, so such scans can occur anywhere in a history of insertions and extractions. -/
+theorem C17_appearing_keeps_invariants (st : Static) (g : GState) (appear : List Mod) (h : SInv st g) (ht : TInv st g) :
+    SInv st (addGlueA st g appear) ∧ TInv st (addGlueA st g appear) :=
+  ⟨addGlueA_inv st g appear h, addGlueA_tinv st g appear h ht⟩
+
+/-- With the cache refreshed from the live length instead (seeded change C17-m7), the statement fails: module 0's glue
+imports module 1 during the scan; the next extraction returns on the fast path with module 1's glue not run. -/
+def appStatic : Static := { hasModGlue := fun m => m = 0 || m = 1, hasBuiltin := fun _ => false, modRaises := fun _ => false, builtinRaises := fun _ => false }
+def appStart : GState := step appStatic GState.init (.insert 0)
+
+theorem C17_live_length_witness :
+    (addGlue appStatic (addGlueALive appStatic appStart [1])).present.contains 1 = true
+    ∧ (addGlue appStatic (addGlueALive appStatic appStart [1])).modPopped.contains 1 = false
+    ∧ (addGlue appStatic (addGlueA appStatic appStart [1])).modPopped.contains 1 = true := by decide
+
+example : SInv appStatic appStart ∧ TInv appStatic appStart :=
+  ⟨step_inv _ _ _ (init_inv _), ⟨by decide, by intro m hm; simp [appStart, step, GState.init] at hm⟩⟩
